@@ -24,7 +24,15 @@ SEED_NOTES = {
     "C06-r2b": "a pure interleaving defect (validate and apply of the node-wide ledger no longer one critical section): not reachable by the single-threaded C06 histories by construction; caught by the C20 check (CSignPay requests).",
     "C20-a": "caught after payment-carrying counterparty sign requests were added to C20 (first run: missed).",
     "C11-r2a": "needs burial of a close, a forget request and a heartbeat, which the union machine of C11 does not have; the C15 check catches it (the restart fails: a channel record without its tracker listener).",
-    "C08-r3a": "the defect is in the wire decoder of PSBT-carrying requests (segwit flag per input), before the on-chain policy; the C08 generator is API level. Caught by the C19 check (psbt-segwit-flag).",
+    "C08-r3a": "caught by C08 after the wire group got an input that the request misdescribes (first run: missed by C08, caught by C19).",
+    "C09-r4b": "a durability defect (the RemoveBlock handler no longer persists the tracker); the C09 generator has no chain and no restart. Caught by the C11 check (block requests through the root handler).",
+    "C01-r4b": "caught by C01 after histories on a channel with a refused setup were added (first run: missed by C01, caught by C05 and C10).",
+    "C08-r4a": "caught after the start-up allowlist scenario was added (first run: missed).",
+    "C08-r4b": "caught after the validator-factory dimension was added to C08 (first run: missed by C08, caught by C12).",
+    "C10-r4a": "caught after self-issued invoices, day-long clock steps and the Stale macro were added (first run: missed).",
+    "C14-r4a": "caught after wire delivery of blocks was added (first run: missed everywhere).",
+    "C15-r4b": "caught by C15 after streamed delivery was added (first run: missed by C15, caught by C14).",
+    "C17-r4b": "caught by the start-up group added in the same round.",
     "C09-r3b": "needs a reorg (block removal with a transaction-less filter proof) before the sweep; the C09 generator has no chain. Caught by the C14 check (connect + disconnect is not the identity).",
     "C10-r3a": "caught after the union machine got a channel funded by a real transaction (first run: missed by every check).",
     "C18-r3a": "caught by C18 after channels were also observed through their permanent id (first run: missed by C18, caught by C04 and C11).",
